@@ -12,6 +12,7 @@
 -/
 import I3.Lemmas.Compress
 import I3.Props.C13
+import I3.Props.C06
 import I3.Props.C20Blake
 
 set_option maxRecDepth 100000
@@ -148,6 +149,13 @@ theorem publicKey_eq_zero_iff (key : Bytes) :
 
 end
 
+/-- the public key survives `Compress`/`Decompress` (C06), for any conforming square root -/
+theorem publicKey_roundtrip (blake : Bytes → Bytes) (sqrtFn : ℕ → Option ℕ) (hs : SqrtSpec sqrtFn)
+    (key : Bytes) :
+    decompress K sqrtFn (compress K (publicKey K blake key)) = .ok (publicKey K blake key) := by
+  rw [publicKey_eq blake]
+  exact C06.decompress_compress sqrtFn hs _
+
 /-! ## 4. the production hash -/
 
 theorem blake_length (m : Bytes) : (Inst.blake m).length = 64 := C20.blake_digest_length m
@@ -176,5 +184,25 @@ example : skToBigInt (fun _ => List.replicate 64 0xff) [] = 2 ^ 252 - 1 := by de
 example : skToBigInt (fun _ => List.replicate 64 0) [] = 2 ^ 251 := by decide
 example : inSubGroup K (publicKey K (fun _ => List.replicate 64 0xff) []) = true :=
   publicKey_inSubGroup _ []
+
+/-- a concrete key with the production hash `Inst.blake` (BLAKE-512): the key `LE32(1)`; the values
+agree with the Go library (`SkToBigInt`, `Public`, `Compress`) -/
+example : skToBigInt Inst.blake (natToLE 32 1) =
+    7145686369095809317503459916107662843906012966450591263510695581871728353645 := by
+  decide +kernel
+example : publicKey K Inst.blake (natToLE 32 1) =
+    (9294265634356104354972967978764070932614808460219262817760395479619496686168,
+     14382649545529405976710664157356364657039027681269256663271478725131562622080) := by
+  decide +kernel
+example : compress K (publicKey K Inst.blake (natToLE 32 1)) =
+    [128, 156, 19, 79, 93, 79, 216, 46, 74, 63, 235, 231, 135, 167, 193, 112, 97, 33, 248, 183, 202,
+      49, 90, 157, 251, 137, 24, 147, 137, 74, 204, 31] := by
+  decide +kernel
+example : 2 ^ 251 ≤ skToBigInt Inst.blake (natToLE 32 1) ∧
+    skToBigInt Inst.blake (natToLE 32 1) < 2 ^ 252 := skToBigInt_range_inst _
+example : inSubGroup K (publicKey K Inst.blake (natToLE 32 1)) = true := publicKey_inSubGroup_inst _
+example : decompress K Inst.sqrtQ (compress K (publicKey K Inst.blake (natToLE 32 1))) =
+    .ok (publicKey K Inst.blake (natToLE 32 1)) :=
+  publicKey_roundtrip _ _ C06.sqrtQ_spec _
 
 end I3.Props.C12
